@@ -36,6 +36,7 @@ class Ctx:
         self.total_rule = None
         self.viol_of = {}        # id(ret node) -> (ret node, [obligations], rule)
         self.sites = {}          # (rule, fn, kind, line) -> [bindings checked, first failing binding or None]
+        self.site_obs = {}       # the same key -> the obligations themselves
 
     # ---- lookups ---------------------------------------------------------------------------
     def method(self, self_ty, name, trait=None):
@@ -189,6 +190,7 @@ class Ctx:
         for o in obs:
             site = (rule, o.fn, o.kind, o.line)
             ent = self.sites.setdefault(site, [0, None])
+            self.site_obs.setdefault(site, []).append(o)
             if o.cond[0] == "c" and all(c[0] == "c" and c[1] for c in o.pc):
                 # concrete arguments: the site is reached and fails
                 ent[0] += 1
@@ -218,9 +220,31 @@ class Ctx:
 
     def finish_total(self):
         for (rule, fn, kind, line), (n, bad) in sorted(self.sites.items(), key=lambda kv: (kv[0][0], str(kv[0][1]), str(kv[0][3]), str(kv[0][2]))):
+            if n == 0 and bad is None:
+                # the rules that used this summary never folded it on a binding (they compared structure): the site was
+                # never looked at — it must then hold for arbitrary inputs
+                from ..evals import prove_obligation
+                und = None
+                for o in self.site_obs.get((rule, fn, kind, line), []):
+                    try:
+                        if o.cond[0] != "c" and prove_obligation(self.pdb, o.cond):
+                            continue
+                        dec, how = decide_site(self, o)
+                    except Uncertified:
+                        dec, how = None, None
+                    if dec is True:
+                        continue
+                    if dec is False:
+                        bad = describe_env(how) if how else "some input"
+                        break
+                    und = o
+                if bad is None and und is not None:
+                    self.rep.uncertified(rule, "panic site %s %s L%s of an observed function is neither evaluated by a rule nor proved safe for arbitrary inputs" % (short(fn), kind, line), self.pdb.where(fn))
+                    continue
             self.rep.ob(rule, "%s %s L%s" % (short(fn), kind, line), bad is None,
                         "panic site (%s, line %s) in %s is reached and fails for %s" % (kind, line, short(fn), bad), self.pdb.where(fn))
         self.sites = {}
+        self.site_obs = {}
 
     def fold(self, node, env):
         self.rep.evals()
